@@ -54,7 +54,7 @@ func storedBy(n *vNode, from int, kind string, sender primitives.MemberId) bool 
 func C11_Vote() {
 	me := env.Param("me") // 2 or 3
 	sym := env.Param("sym")
-	wd := newWorld(me, equalWeights(4))
+	wd := newWorld(me, paramWeights())
 	wd.prefix(1)
 	p := wd.n
 	for j := 0; j < sym; j++ {
@@ -142,7 +142,7 @@ func C11_NewView() {
 // C11_PrepareCommit: the PREPARE and COMMIT a correct follower emits are counted by a correct peer.
 func C11_PrepareCommit() {
 	me := env.Param("me")
-	wd := newWorld(me, equalWeights(4))
+	wd := newWorld(me, paramWeights())
 	wd.prefix(2) // accepted the proposal and prepared: PREPARE and COMMIT are in the outbox
 	p := wd.n
 	peerIdx := 5 - me
